@@ -22,6 +22,13 @@ def main(run, replay=None):
     t0 = time.time()
     res = run(a.tier, a.seed)
     res.setdefault("violations", [])
-    res["violations"] = res["violations"][:20]
+    seen = set()
+    uniq = []
+    for v in res["violations"]:
+        key = (v.get("id"), v.get("witness"))
+        if key not in seen:
+            seen.add(key)
+            uniq.append(v)
+    res["violations"] = uniq[:40]
     res["wall_s"] = round(time.time() - t0, 2)
     print(json.dumps(res, default=repr))
